@@ -577,3 +577,101 @@ func checkLoadChainState(p *core.Program, r *core.Report, chain []flow.FuncUnit)
 		r.Violation("O15.6", fmt.Sprintf("load chain: package-level state #%d", i+1), "-", "%s: the outcome of loading a (truncated) file then depends on what was loaded before", b)
 	}
 }
+
+// checkReaderCompleteness (O15.7): a function of the load chain that reads sections from an io.Reader parameter reads the
+// same sections on every success path: a success return that is reached after fewer reads than another one (an early
+// `return` under a "keys only" flag) accepts a file that is cut anywhere after the point where it stopped reading.
+func checkReaderCompleteness(p *core.Program, r *core.Report, chain []flow.FuncUnit) {
+	n := 0
+	for _, u := range chain {
+		fd, ok := u.Node.(*ast.FuncDecl)
+		if !ok {
+			continue
+		}
+		obj, _ := u.Pkg.TypesInfo.Defs[fd.Name].(*types.Func)
+		fn := p.SSA.FuncValue(obj)
+		if fn == nil || len(fn.Blocks) == 0 {
+			continue
+		}
+		var rd *ssa.Parameter
+		for _, prm := range fn.Params {
+			if isIOReader(prm.Type()) {
+				rd = prm
+			}
+		}
+		if rd == nil {
+			continue
+		}
+		var reads []*ssa.Call
+		for _, b := range fn.Blocks {
+			for _, in := range b.Instrs {
+				c, ok := in.(*ssa.Call)
+				if !ok {
+					continue
+				}
+				for _, a := range c.Common().Args {
+					v := a
+					if mi, isMI := v.(*ssa.MakeInterface); isMI {
+						v = mi.X
+					}
+					if v == ssa.Value(rd) {
+						reads = append(reads, c)
+					}
+				}
+			}
+		}
+		if len(reads) == 0 {
+			continue
+		}
+		type succ struct {
+			ret *ssa.Return
+			dom map[*ssa.Call]bool
+		}
+		var succs []succ
+		for _, b := range fn.Blocks {
+			ret, ok := b.Instrs[len(b.Instrs)-1].(*ssa.Return)
+			if !ok || len(ret.Results) == 0 {
+				continue
+			}
+			ev := ret.Results[len(ret.Results)-1]
+			if !isErrorType(ev.Type()) {
+				continue
+			}
+			if k, isC := ev.(*ssa.Const); !isC || k.Value != nil {
+				if len(ssaOrigins(ev, nil)) > 0 {
+					continue // may carry an error: not a success return
+				}
+			}
+			d := map[*ssa.Call]bool{}
+			for _, c := range reads {
+				if c.Block() == b || c.Block().Dominates(b) {
+					d[c] = true
+				}
+			}
+			succs = append(succs, succ{ret, d})
+		}
+		if len(succs) == 0 {
+			continue
+		}
+		n++
+		most := succs[0]
+		for _, s := range succs {
+			if len(s.dom) > len(most.dom) {
+				most = s
+			}
+		}
+		var bad []string
+		for _, s := range succs {
+			if len(s.dom) < len(most.dom) {
+				bad = append(bad, fmt.Sprintf("the success return at %s is reached after %d of the %d reads that precede the success return at %s", p.Pos(s.ret.Pos()), len(s.dom), len(most.dom), p.Pos(most.ret.Pos())))
+			}
+		}
+		cn := u.Name + ": every success path reads every section"
+		if len(bad) == 0 {
+			r.OK("O15.7", cn, p.Pos(fn.Pos()), "%d success return(s), each preceded by the same %d read(s) from the reader", len(succs), len(most.dom))
+		} else {
+			r.Violation("O15.7", cn, p.Pos(fn.Pos()), "%s: a file cut after the point where that path stops reading is accepted as complete", strings.Join(bad, "; "))
+		}
+	}
+	r.Count("section readers checked for completeness", n)
+}
